@@ -46,6 +46,10 @@ pub struct K17 {
     /// time the client spends on each operator event, cycled
     #[serde(default)]
     pub ev_delay_us: Vec<u64>,
+    /// `--gpsd`: (refused?, fixes (time, lat, lon) the daemon reports); the receiver drives around,
+    /// now and then to the ends of the earth
+    #[serde(default)]
+    pub gpsd: Option<(bool, Vec<(u64, f64, f64)>)>,
 }
 
 fn default_rx() -> (f64, f64) {
@@ -114,7 +118,7 @@ pub const INVALID_CLI: [&[&str]; 18] = [
 pub fn generate(rng: &mut Rng, fault_free: bool) -> K17 {
     if !fault_free && rng.chance(0.08) {
         let a = *rng.pick(&INVALID_CLI);
-        return K17 { args: vec![], cols: 80, rows: 24, refused_first: 0, lines: vec![], events: vec![], quit_at_us: 100_000, quit_ctrl_c: false, proc_delay_us: vec![], reconnect_at_us: None, invalid_cli: Some(a.iter().map(|s| s.to_string()).collect()), rx: (35.0, -80.0), sweep: 0, compass: 0, ev_delay_us: vec![] };
+        return K17 { args: vec![], cols: 80, rows: 24, refused_first: 0, lines: vec![], events: vec![], quit_at_us: 100_000, quit_ctrl_c: false, proc_delay_us: vec![], reconnect_at_us: None, invalid_cli: Some(a.iter().map(|s| s.to_string()).collect()), rx: (35.0, -80.0), sweep: 0, compass: 0, ev_delay_us: vec![], gpsd: None };
     }
     let (cols, rows) = if fault_free {
         *rng.pick(&[(80u16, 24u16), (120, 40)])
@@ -266,6 +270,27 @@ pub fn generate(rng: &mut Rng, fault_free: bool) -> K17 {
         events.sort_by_key(|e| e.at_us);
     }
     let ev_delay_us: Vec<u64> = if !fault_free && rng.chance(0.3) { (0..5).map(|_| *rng.pick(&[0u64, 0, 20, 200, 1_000, 3_000])).collect() } else { vec![] };
+    let gpsd = if !fault_free && rng.chance(0.12) {
+        let refused = rng.chance(0.2);
+        let mut fixes = vec![];
+        let mut t = rng.below(400_000);
+        let (mut la, mut lo) = RX;
+        for _ in 0..rng.below(12) {
+            if rng.chance(0.12) {
+                // a receiver that reports nonsense for a while (cold start, spoofing)
+                la = *rng.pick(&[90.0, -90.0, 0.0, 89.9999, -89.9999, 45.0]);
+                lo = *rng.pick(&[180.0, -180.0, 0.0, 179.9999, 360.0, -720.0]);
+            } else {
+                la = (la + rng.f64_range(-0.3, 0.3)).clamp(-89.9, 89.9);
+                lo += rng.f64_range(-0.3, 0.3);
+            }
+            fixes.push((t, la, lo));
+            t += 100_000 + rng.below(duration_us / 6 + 1);
+        }
+        Some((refused, fixes))
+    } else {
+        None
+    };
     // a session left alone: nothing from the operator and nothing new from the server for one to
     // five minutes of simulated time (every timer the client may own fires in that time)
     let long_quiet = !fault_free && rng.chance(0.012);
@@ -314,9 +339,9 @@ pub fn generate(rng: &mut Rng, fault_free: bool) -> K17 {
         let args: Vec<String> = args.into_iter().filter(|a| !a.starts_with("--filter-time") && a != "--retry-tcp" && !a.starts_with("--max-range") && a != "--limit-parsing").collect();
         let mut args = args;
         args.retain(|a| a != "--disable-heading");
-        return K17 { args, cols, rows, refused_first: 0, lines: vec![], events, quit_at_us, quit_ctrl_c: false, proc_delay_us: vec![], reconnect_at_us: None, invalid_cli: None, rx: (35.0, -80.0), sweep, compass, ev_delay_us: vec![] };
+        return K17 { args, cols, rows, refused_first: 0, lines: vec![], events, quit_at_us, quit_ctrl_c: false, proc_delay_us: vec![], reconnect_at_us: None, invalid_cli: None, rx: (35.0, -80.0), sweep, compass, ev_delay_us: vec![], gpsd: None };
     }
-    K17 { args, cols, rows, refused_first, lines, events, quit_at_us, quit_ctrl_c: rng.chance(0.3), proc_delay_us, reconnect_at_us, invalid_cli: None, rx: RX, sweep: 0, compass: 0, ev_delay_us }
+    K17 { args, cols, rows, refused_first, lines, events, quit_at_us, quit_ctrl_c: rng.chance(0.3), proc_delay_us, reconnect_at_us, invalid_cli: None, rx: RX, sweep: 0, compass: 0, ev_delay_us, gpsd }
 }
 
 pub fn compile(sc: &K17) -> KChild {
@@ -387,7 +412,23 @@ pub fn compile(sc: &K17) -> KChild {
     let q = if sc.quit_ctrl_c { KEv::Key { code: "c:c".into(), ctrl: true, shift: false, alt: false } } else { KEv::Key { code: "c:q".into(), ctrl: false, shift: false, alt: false } };
     events.push(KEvent { at_us: sc.quit_at_us.max(events.last().map(|e| e.at_us).unwrap_or(0)), ev: q });
     // three seam calls per idle iteration of 60 ms
-    KChild { gpsd: None, ev_delay_us: sc.ev_delay_us.clone(), connects, events, proc_delay_us: sc.proc_delay_us.clone(), coalesce: vec![], step_budget: 40_000 + sc.quit_at_us / 12_000 }
+    let gpsd = sc.gpsd.as_ref().map(|(refuse, fixes)| {
+        let l = |at_us: u64, v: Value, fix: Option<(f64, f64)>| KGpsdLine { at_us, text: v.to_string(), fix };
+        let mut lines = vec![
+            l(0, json!({"class": "VERSION", "release": "3.25", "rev": "3.25", "proto_major": 3, "proto_minor": 15}), None),
+            l(0, json!({"class": "DEVICES", "devices": [{"class": "DEVICE", "path": "/dev/ttyACM0"}]}), None),
+            l(0, json!({"class": "WATCH", "enable": true, "json": true, "nmea": false}), None),
+            l(0, json!({"class": "TPV", "device": "/dev/ttyACM0", "mode": 1}), None),
+        ];
+        for (i, (t, la, lo)) in fixes.iter().enumerate() {
+            if i % 3 == 2 {
+                lines.push(l(*t, json!({"class": "SKY", "device": "/dev/ttyACM0", "satellites": []}), None));
+            }
+            lines.push(l(*t, json!({"class": "TPV", "device": "/dev/ttyACM0", "mode": 3, "lat": la, "lon": lo}), Some((*la, *lo))));
+        }
+        KGpsd { refuse: *refuse, lines }
+    });
+    KChild { gpsd, ev_delay_us: sc.ev_delay_us.clone(), connects, events, proc_delay_us: sc.proc_delay_us.clone(), coalesce: vec![], step_budget: 40_000 + sc.quit_at_us / 12_000 }
 }
 
 pub fn is_quit_json(j: &str) -> bool {
@@ -416,6 +457,9 @@ pub fn execute(sc: &K17) -> Outcome {
     }
     let mut args: Vec<String> = vec![format!("--lat={}", sc.rx.0), format!("--long={}", sc.rx.1), "--log-folder=logs".into()];
     args.extend(sc.args.iter().cloned());
+    if sc.gpsd.is_some() {
+        args.push("--gpsd".into());
+    }
     let run = run_child(&Spec { exe: &exe("radar"), args, child: &child, tty: Some((sc.cols, sc.rows)), wall_limit: Duration::from_secs(if sc.sweep > 0 { 900 } else { 60 }) });
     let mut vt = Vt::new();
     vt.keep_from = (sc.sweep + sc.compass) as u64;
@@ -519,6 +563,12 @@ pub fn execute(sc: &K17) -> Outcome {
             _ => {}
         }
     }
+    if p.log.iter().any(|l| matches!(l, LogEv::Gpsd { fix: Some(_), .. })) {
+        out.fault("receiver_position_from_gpsd");
+    }
+    if p.run.seam_log.contains("GPSD connect refuse") {
+        out.fault("gpsd_connection_refused");
+    }
     if out.virtual_ns > 60_000_000_000 && sc.sweep == 0 && sc.compass == 0 {
         out.fault("session_left_alone_for_over_a_minute");
     }
@@ -591,6 +641,12 @@ pub fn shrink(sc: &K17) -> Vec<K17> {
     }
     if !sc.ev_delay_us.is_empty() {
         c.push(K17 { ev_delay_us: vec![], ..sc.clone() });
+    }
+    if let Some((refused, fixes)) = &sc.gpsd {
+        c.push(K17 { gpsd: None, ..sc.clone() });
+        for v in drop_chunks(fixes) {
+            c.push(K17 { gpsd: Some((*refused, v)), ..sc.clone() });
+        }
     }
     if !sc.proc_delay_us.is_empty() {
         c.push(K17 { proc_delay_us: vec![], ..sc.clone() });
